@@ -8,7 +8,7 @@ class FiniteStateController(POMDPPolicy):
         nstates = len(action_strategy)
         assert nstates == observation_strategy.shape[0]
         assert len(observation_strategy.shape) in (2, 3)
-        if len(observation_strategy.shape) == 2:
+        if len(observation_strategy.shape) == 3:
             assert observation_strategy.shape == (
                 nstates, len(pomdp.action_list), len(pomdp.observation_list)
             )
